@@ -23,7 +23,7 @@ func init() {
 	})
 }
 
-var c13Moves = []string{"request", "half-open", "rst-newest", "priority-new", "window-update-new", "headers-open-block", "headers-open-block-malformed", "continuation", "continuation-end", "continuation-unfinished-field", "data-over-limit", "data-over-limit+ES", "data-at-limit+ES", "content-length-over", "request-huge-path", "ping", "settings", "finish-oldest"}
+var c13Moves = []string{"request", "half-open", "rst-newest", "priority-new", "window-update-new", "headers-open-block", "headers-open-block-malformed", "continuation", "continuation-end", "continuation-unfinished-field", "data-over-limit", "data-over-limit+ES", "data-at-limit+ES", "content-length-over", "request-huge-path", "ping", "settings", "finish-oldest", "request-timeout"}
 
 type c13Case struct {
 	Path  []int    `json:"path"`
@@ -46,7 +46,8 @@ type c13Run struct {
 
 func newC13() *c13Run {
 	x := &c13Run{next: 1, limit: 2, maxBody: 8, maxHdr: 400}
-	x.h = harness.NewServer(harness.ServerOpts{MaxConcurrentStreams: x.limit, MaxRequestBodySize: x.maxBody, MaxHeaderListSize: x.maxHdr})
+	// ReadTimeout: the server gives requests up on its own when the (virtual) timer is fired by the move "request-timeout"
+	x.h = harness.NewServer(harness.ServerOpts{MaxConcurrentStreams: x.limit, MaxRequestBodySize: x.maxBody, MaxHeaderListSize: x.maxHdr, ReadTimeout: 1000000000})
 	return x
 }
 
@@ -67,6 +68,10 @@ func (x *c13Run) menu() []string {
 			}
 		case "rst-newest", "data-over-limit", "data-over-limit+ES", "data-at-limit+ES":
 			if x.newest == 0 || x.block != 0 {
+				continue
+			}
+		case "request-timeout":
+			if len(x.h.S.Armed()) == 0 || x.block != 0 {
 				continue
 			}
 		case "finish-oldest":
@@ -147,6 +152,8 @@ func (x *c13Run) apply(mv string) {
 		id := x.newID()
 		fields := harness.ReqFields("POST", "https", "h", "/big", [2]string{"x-sid", fmt.Sprint(id)}, [2]string{"content-length", "1000000"})
 		h.SendFrames(peer.Headers(id, staticBlock(fields), peer.HeadersOpt{EndHeaders: true, Pad: -1}))
+	case "request-timeout":
+		h.FireTimer()
 	case "ping":
 		h.SendFrames(peer.Ping(false, [8]byte{1}))
 	case "settings":
